@@ -68,9 +68,13 @@ def main(tier: str, seed: int, props=None) -> int:
         env.pop("MOLGRI_VERIF_CHILD", None)
         env["VERIF_HASHSEED"] = "987654321"
         env["VERIF_SEED"] = str(seed)
+        import tempfile
+        with tempfile.NamedTemporaryFile("w", suffix=".json", delete=False) as tf:
+            json.dump(seeds, tf)
         p = subprocess.run([sys.executable, os.path.join(core.VERIF_DIR, "check.py"), "selftest-child", "--tier", tier,
-                            "--child-prop", prop, "--child-seeds", json.dumps(seeds)],
+                            "--child-prop", prop, "--child-seeds", "@" + tf.name],
                            capture_output=True, text=True, env=env)
+        os.unlink(tf.name)
         idx = p.stdout.rfind("@@FPS@@")
         if p.returncode != 0 or idx < 0:
             bad.append(f"fresh interpreter failed rc={p.returncode}: {p.stderr[-300:]}")
